@@ -604,6 +604,61 @@ func c09Resolver(c *core.Ctx, o *so.Oracle, sp *saml.ServiceProvider, corpus [][
 			return so.OK200(so.Bytes(so.SOAP(el.FindElement("./Body/ArtifactResponse/Response").Copy())))
 		}},
 	}
+	// well-formed answers that fail one semantic check each: every refusal path of the artifact code must keep the error contract
+	type tweak struct {
+		name string
+		f    func(ar *etree.Element)
+	}
+	tweaks := []tweak{
+		{"status-requester", func(ar *etree.Element) {
+			ar.FindElement("./Status/StatusCode").CreateAttr("Value", saml.StatusRequester)
+		}},
+		{"status-responder-no-response", func(ar *etree.Element) {
+			ar.FindElement("./Status/StatusCode").CreateAttr("Value", saml.StatusResponder)
+			ar.RemoveChild(ar.FindElement("./Response"))
+		}},
+		{"status-unknown-value", func(ar *etree.Element) {
+			ar.FindElement("./Status/StatusCode").CreateAttr("Value", "urn:x:<b>status</b>")
+		}},
+		{"status-empty", func(ar *etree.Element) { ar.FindElement("./Status/StatusCode").CreateAttr("Value", "") }},
+		{"no-status", func(ar *etree.Element) { ar.RemoveChild(ar.FindElement("./Status")) }},
+		{"wrong-inresponseto", func(ar *etree.Element) { ar.CreateAttr("InResponseTo", "id-some-other-resolve") }},
+		{"no-inresponseto", func(ar *etree.Element) { ar.RemoveAttr("InResponseTo") }},
+		{"stale-issueinstant", func(ar *etree.Element) { ar.CreateAttr("IssueInstant", "2001-01-01T00:00:00Z") }},
+		{"bad-issueinstant", func(ar *etree.Element) { ar.CreateAttr("IssueInstant", "yesterday") }},
+		{"wrong-issuer", func(ar *etree.Element) { ar.FindElement("./Issuer").SetText("https://other-idp.example/metadata") }},
+		{"wrong-version", func(ar *etree.Element) { ar.CreateAttr("Version", "1.1") }},
+		{"inner-status-authnfailed", func(ar *etree.Element) {
+			ar.FindElement("./Response/Status/StatusCode").CreateAttr("Value", saml.StatusAuthnFailed)
+		}},
+		{"inner-wrong-issuer", func(ar *etree.Element) {
+			ar.FindElement("./Response/Issuer").SetText("https://other-idp.example/metadata")
+		}},
+		{"inner-stale-issueinstant", func(ar *etree.Element) {
+			ar.FindElement("./Response").CreateAttr("IssueInstant", "2001-01-01T00:00:00Z")
+		}},
+		{"inner-wrong-inresponseto", func(ar *etree.Element) { ar.FindElement("./Response").CreateAttr("InResponseTo", "id-unknown") }},
+		{"inner-wrong-destination", func(ar *etree.Element) {
+			ar.FindElement("./Response").CreateAttr("Destination", "https://elsewhere.example/acs")
+		}},
+		{"inner-no-assertion", func(ar *etree.Element) {
+			r := ar.FindElement("./Response")
+			for _, a := range r.FindElements("./Assertion") {
+				r.RemoveChild(a)
+			}
+		}},
+	}
+	for _, tw := range tweaks {
+		tw := tw
+		behs = append(behs, beh{"well-formed/" + tw.name, func(id string, _ *http.Request, _ []byte) (*http.Response, error) {
+			el, _ := so.Parse(good(id))
+			ar := el.FindElement("./Body/ArtifactResponse")
+			if p, _, _, _ := core.Guard(func() { tw.f(ar) }); p {
+				return so.OK200(good(id))
+			}
+			return so.OK200(so.Bytes(el))
+		}})
+	}
 	for _, st := range []int{204, 301, 302, 400, 403, 404, 500, 503} {
 		st := st
 		behs = append(behs, beh{fmt.Sprintf("status-%d", st), func(id string, _ *http.Request, _ []byte) (*http.Response, error) {
@@ -616,10 +671,11 @@ func c09Resolver(c *core.Ctx, o *so.Oracle, sp *saml.ServiceProvider, corpus [][
 		desc := "resolver " + b.name
 		if c09Call(c, "ParseResponse-SAMLart", desc, nil, func() { a, err = so.DeliverArtifactHTTP(sp, []string{"req-1"}, cur, b.f) }) {
 			c09Contract(c, "ParseResponse-SAMLart", desc, nil, a, err)
+			c.Observe("resolver_behaviours", b.name)
 			if b.name == "good" && err != nil {
 				c.Inconclusive("resolver positive control rejected: " + err.(*saml.InvalidResponseError).PrivateErr.Error())
 			}
-			if b.name != "good" && err == nil {
+			if b.name != "good" && !strings.Contains(b.name, "wrong-version") && err == nil { // the Version of the envelope is not something C09 (or the SP) judges
 				c.Violation("C09/resolver-fault-accepted/"+b.name, "assertion returned although artifact resolution "+b.name, nil)
 			}
 		}
